@@ -20,7 +20,7 @@ func pwFragments(pw string) []string {
 	return out
 }
 
-var c15Passwords = []string{"admin", "my secret", "pa55 w0rd with spaces", "it's", "say \"hi\" now", "a=b=c", "semi;colon;here", "back\\slash", "tab\there", "new\nline", "  leading", "trailing  ",
+var c15Passwords = []string{"hunter--2", "x/*y", "a--", "--", "/*", "*/ x /*", "a/*b*/c", "-- x", "zq'xj", "'zqxj", "zq''xj'", "admin", "my secret", "pa55 w0rd with spaces", "it's", "say \"hi\" now", "a=b=c", "semi;colon;here", "back\\slash", "tab\there", "new\nline", "  leading", "trailing  ",
 	"with password inner", "password for x = y", "'quoted'", "--comment", "/*block*/", "üñíçødé", "日本語パスワード", "x", "", "[REDACTED]", "a'b\"c\\d=e;f g",
 	// passwords that spell a password clause themselves, with the quote that lets a nested match run out of the literal
 	"a password for x = 'b", "set password for \"y z\" = 'zz' tail", "password for u=\"q", "with password 'inner", "x with password\"q\" y",
@@ -65,6 +65,8 @@ var c15Layouts = []c15Layout{
 	{"after-string-with-dquote", func(u, p string) string { return "SELECT v FROM m WHERE h = 'say \"' ; CREATE USER " + qid(u) + " WITH PASSWORD " + p }, ""},
 	// spellings the grammar does not have today: they count only if the parser accepts them - and a parser that learns
 	// one makes Sanitize responsible for it
+	{"create-doubled-quote", func(u, p string) string { return "CREATE USER " + qid(u) + " WITH PASSWORD " + strings.Replace(p, "\\'", "''", -1) }, ""},
+	{"set-doubled-quote", func(u, p string) string { return "SET PASSWORD FOR " + qid(u) + " = " + strings.Replace(p, "\\'", "''", -1) + "; SHOW USERS" }, ""},
 	{"create-equals", func(u, p string) string { return "CREATE USER " + qid(u) + " WITH PASSWORD = " + p }, ""},
 	{"create-equals-tight", func(u, p string) string { return "CREATE USER " + qid(u) + " WITH PASSWORD=" + p + " WITH ALL PRIVILEGES" }, ""},
 	{"create-parens", func(u, p string) string { return "CREATE USER " + qid(u) + " WITH PASSWORD (" + p + ")" }, ""},
